@@ -112,7 +112,7 @@ func (w *schedWorker) Item(idx int, emit func(vf.Violation), st sweep.Stats, sam
 		if len(tr) > 400 {
 			tr = tr[len(tr)-400:]
 		}
-		emit(vf.Violation{Sig: sig, Detail: fmt.Sprintf("%s: %s: %s (schedule of %d choices, replayed twice with the same result)", sc.Name, problem, detail, len(x.Choices)),
+		emit(vf.Violation{Sig: sig, Detail: fmt.Sprintf("%s: %s: %s (schedule of %d choices, replayed twice with the same result; execution #%d of the search)", sc.Name, problem, detail, len(x.Choices), ex.Execs+1),
 			Replay: map[string]any{"scenario": sc.Name, "choices": x.Choices, "status": x.Status, "observed": x.Out, "expected": want, "trace_tail": tr}})
 	})
 	st["executions"] += ex.Execs
